@@ -114,11 +114,13 @@ def needs_disp_band(name) -> bool:
 
 
 # ------------------------------------------------------------------ calling the library
-def call(name, reader, outdir, params, gulp, start, nsamps) -> list:
+def call(name, reader, outdir, params, gulp, start, nsamps, allocator=None) -> list:
     """Invoke the transform; returns the list of output paths it reported."""
     kw = {"gulp": gulp, "start": start, "nsamps": nsamps, "quiet": True}
     if gulp is None:  # the gulp argument left at its default
         del kw["gulp"]
+    if allocator is not None:
+        kw["allocator"] = allocator
     if name == "invert_freq":
         return [reader.invert_freq(outfile_name=os.path.join(outdir, "out_inv.fil"), **kw)]
     if name == "apply_channel_mask":
@@ -127,6 +129,8 @@ def call(name, reader, outdir, params, gulp, start, nsamps) -> list:
     if name == "extract_samps":
         n = nsamps if nsamps is not None else reader.header.nsamples - start
         kws = {"quiet": True} if gulp is None else {"gulp": gulp, "quiet": True}
+        if allocator is not None:
+            kws["allocator"] = allocator
         return [reader.extract_samps(start, n, outfile_name=os.path.join(outdir, "out_samps.fil"), **kws)]
     if name == "extract_chans":
         return list(reader.extract_chans(np.array(params["chans"]), outfile_base=os.path.join(outdir, "out"),
